@@ -94,17 +94,14 @@ impl BigNum {
     /// assert_eq!("-4321", b.to_string());
     /// ```
     pub fn new(n: isize) -> BigNum {
-        if n >= 0 {
-            BigNum {
-                pos: true,
-                val: vec![n as u32],
-            }
-        } else {
-            BigNum {
-                pos: false,
-                val: vec![(-n) as u32],
-            }
+        let mut m = n.unsigned_abs() as u128;
+        let mut val = vec![m as u32];
+        m >>= 32;
+        while m != 0 {
+            val.push(m as u32);
+            m >>= 32;
         }
+        BigNum { pos: n >= 0, val }
     }
 
     /// Makes new `BigNum` from vector
